@@ -38,6 +38,9 @@ package main
 //@   ensures [C18] a_file_is_always_named: result1 == nil && result0.help == nil ==> result0.file != ""
 //@   ensures [C18] dump_target_is_known: result1 == nil && result0.help == nil && result0.bdump ==> result0.bdumpFile != ""
 //@   ensures [C18] load_source_is_unambiguous: result1 == nil && result0.help == nil && result0.bload && result0.bloadFile != "" ==> result0.file == result0.bloadFile
+//@   snapshot flagfile: at leave 1: a.bdumpFile
+//@   ensures [C18] a_dump_name_is_derived_only_from_a_bcl_file_name: result1 == nil && result0.help == nil && result0.bdump && $flagfile == "" ==> shassuffix(result0.file, ".bcl")
+//@   ensures [C18] a_dump_name_given_by_flag_is_kept: result1 == nil && $flagfile != "" ==> result0.bdumpFile == $flagfile
 //@   assert [C18] dump_flag_value_needs_an_equals_sign: at Errorf#1: len(arg) > len("--bdump")
 //@   assert [C18] load_flag_value_needs_an_equals_sign: at Errorf#2: len(arg) > len("--bload")
 //@   assert [C18] only_a_cluster_can_be_a_bad_cluster: at Errorf#3: len(arg) > 2 && arg[0] == '-'
